@@ -174,6 +174,27 @@ theorem pinned_balance_stale :
     (balanceUpdatePinned spent).cache = some 50000 ∧ total spent = 0 := by
   decide
 
+/-- A replacement history: two stored transactions consume the same outpoint (the second was built
+before the first was sent and is sent afterwards), then the first is deleted.  The outpoint stays
+consumed - it is not listed as unspent and the balance is the replacement's change (an instance of
+T3, which holds for every history; here with the figures) ... -/
+theorem replacement_then_delete :
+    let ops := [Op.newKey 1, Op.newKey 2, Op.utxoAdd 1 1000000 7 0 5,
+      Op.send 8 { ins := [(7, 0, 1000000)], outs := [(100000, none), (899000, some 2)] },
+      Op.send 9 { ins := [(7, 0, 1000000)], outs := [(100000, none), (895000, some 2)] },
+      Op.delete 8]
+    isUnspentOutpoint (run init ops) 7 0 = false ∧ total (run init ops) = 895000 := by
+  decide
+
+/-- ... whereas `delete` as it was before the repair F103 (every consumed output becomes unspent
+again) lists the outpoint as unspent although the stored replacement consumes it. -/
+theorem pinned_delete_frees_consumed :
+    let st := run init [Op.newKey 1, Op.newKey 2, Op.utxoAdd 1 1000000 7 0 5,
+      Op.send 8 { ins := [(7, 0, 1000000)], outs := [(100000, none), (899000, some 2)] },
+      Op.send 9 { ins := [(7, 0, 1000000)], outs := [(100000, none), (895000, some 2)] }]
+    isUnspentOutpoint (deletePinned st 8).1 7 0 = true ∧ spentInDb (deletePinned st 8).1 7 0 = true := by
+  decide
+
 /-- the hypotheses of T4 are satisfiable: a history with a send that is accepted -/
 example : (send (run init [Op.newKey 1, Op.newKey 2, Op.utxoAdd 1 50000 7 0 3]) 9
     { ins := [(7, 0, 50000)], outs := [(20000, none), (29000, some 2)] }).2 = Status.ok := by decide
